@@ -534,6 +534,53 @@ class World:
         a[0, 1] = a[1, 0] = 0.25
         return a
 
+    # ---- per-fold noise containers (round 7) -----------------------------------------------
+    def asym_prec(self, n, k=0):
+        """a precision matrix as an estimator hands it out: np.linalg.inv of a random SPD matrix
+           (symmetric only up to rounding), plus an explicit 1-ulp asymmetry in one off-diagonal
+           pair, so that (p + p.T) / 2 differs from p at bit level whatever LAPACK did"""
+        g = np.random.RandomState((self.seed * 7 + 1000 * k + n) % (2 ** 31))
+        a = g.standard_normal((n + 3, n))
+        p = np.linalg.inv(a.T @ a / (n + 3) + 0.5 * np.eye(n))
+        i, j = (k % (n - 1)), n - 1
+        p[i, j] = np.nextafter(p[j, i], np.inf)
+        assert not np.array_equal(p, (p + p.T) / 2)
+        return p
+
+    def noise_folds(self, form, n, n_fold=2, fold_values=None):
+        """the argument `noise` given *per cross-validation fold*: a container of n x n matrices.
+           forms: list / tuple / dict keyed by fold index / dict keyed by fold value / 3-d stack of
+           NOT exactly symmetric float64 matrices (`asym_prec`); `list-sym`: a list of exactly
+           symmetric matrices (a normalisation of the entries is then the identity on the values
+           and only the identity of the entries tells); `est-list` / `est-3d`: what the library's own
+           estimator (prec_from_residuals on a list / 3-d stack of residuals) returns, fed back in"""
+        mats = [self.asym_prec(n, k) for k in range(n_fold)]
+        if form == 'list-asym':
+            out = mats
+        elif form == 'tuple-asym':
+            out = tuple(mats)
+        elif form == 'dict-asym':
+            out = {k: m for k, m in enumerate(mats)}
+        elif form == 'dict-fold-asym':
+            out = {v: m for v, m in zip(fold_values, mats)}
+        elif form == '3d-asym':
+            out = np.stack(mats)
+        elif form == 'list-sym':
+            out = [self.prec(n) + 0.125 * k * np.eye(n) for k in range(n_fold)]
+        elif form in ('est-list', 'est-3d'):
+            from rsatoolbox.data.noise import prec_from_residuals
+            g = np.random.RandomState((self.seed * 13 + n) % (2 ** 31))
+            res = [g.standard_normal((4 * n, n)) for _ in range(n_fold)]
+            out = prec_from_residuals(res if form == 'est-list' else np.stack(res),
+                                      method=self.pick(['shrinkage_diag', 'full', 'shrinkage_eye']))
+            if form == 'est-3d' and not isinstance(out, np.ndarray):
+                out = np.stack(out)       # the estimator answers a stack of residuals with a list
+            assert isinstance(out, list) if form == 'est-list' else out.ndim == 3
+        else:
+            raise ValueError(form)
+        self.tag('noise:' + form)
+        return out
+
     def theta(self, kind):
         """parameter vector of a model: generic / (class 6) a unit vector resp. convex weights"""
         th = {'fixed': None, 'weighted': np.array([0.5, 1.5]), 'select': 1,
@@ -1261,7 +1308,7 @@ def _tag_selection(w, qualname, self_obj, args, kwargs):
             w.tag('sel:pattern:array:asc+shuffle')
 
 
-def build_call(qualname, seed, vc=0):
+def build_call(qualname, seed, vc=0, nz=None):
     key = qualname[len('rsatoolbox.'):]
     if qualname in NO_FACTORY:
         raise Uncovered(NO_FACTORY[qualname])
@@ -1270,11 +1317,69 @@ def build_call(qualname, seed, vc=0):
     w = World(seed, vc or 0)
     self_obj, args, kwargs = RECIPES[key](w)
     args, kwargs = list(args), dict(kwargs)
+    if nz:
+        args, kwargs = _noise_form(w, qualname, args, kwargs, nz)
     _auto_options(w, qualname, 'method' if self_obj is not None else 'function', args, kwargs)
     _tag_selection(w, qualname, self_obj, args, kwargs)
     build_call.last_tags = sorted(w.tags)
     build_call.last_used = set(w.used)
     return self_obj, args, kwargs
+
+
+# forms of a per-fold `noise` argument (case key `nz`); '+nested': a list of datasets with a list
+# (one entry per dataset) of per-fold lists
+NOISE_FORMS = ['list-asym', 'tuple-asym', 'dict-asym', 'dict-fold-asym', '3d-asym', 'list-sym',
+               'est-list', 'est-3d', 'nested-list-asym']
+
+
+def noise_callables(quals):
+    """public callables with a `noise` parameter (by signature: a new estimator is included)"""
+    return [q for q in quals if 'noise' in params_of(q)]
+
+
+def _noise_form(w, qualname, args, kwargs, nz):
+    """round 7: the callable's `noise` argument given per cross-validation fold (form `nz`), with
+       the options that make the library read it that way (method crossnobis, a grouping and a
+       fold descriptor).  Built from the signature, so that every callable with a `noise`
+       parameter — also one that accepts only a single matrix and must then reject the container
+       without touching it — gets every container form"""
+    names = params_of(qualname)
+    if 'dataset' in names:
+        ds = w.tdataset() if 'time_descriptor' in names else w.dataset()
+        folds = sorted(set(np.asarray(ds.obs_descriptors['runs']).tolist()))
+        if nz == 'dict-asym':
+            # integer fold labels 0..k-1: "keyed by fold value" and "keyed by fold index" coincide
+            ds.obs_descriptors['fold'] = w._d([folds.index(r) for r in np.asarray(ds.obs_descriptors['runs']).tolist()])
+        cv = 'fold' if nz == 'dict-asym' else 'runs'
+        kw = {'noise': None}
+        if 'method' in names:
+            kw['method'] = 'crossnobis'
+        pos = [ds]
+        if names[:2] == ['dataset', 'descriptor'] and 'method' not in names and w.seed % 2:
+            pos.append('conds')         # positional descriptor
+        else:
+            kw['descriptor'] = 'conds'
+        if 'cv_descriptor' in names:
+            kw['cv_descriptor'] = cv
+        if 'remove_mean' in names:
+            kw['remove_mean'] = w.pick([False, True])
+        if nz == 'nested-list-asym':
+            ds2 = w.tdataset() if 'time_descriptor' in names else w.dataset()
+            pos[0] = w.form([ds, ds2])
+            kw['noise'] = [w.noise_folds('list-asym', ds.n_channel, len(folds)),
+                           w.noise_folds('list-asym', ds2.n_channel, len(folds))]
+            w.tag('noise:nested-list-asym')
+        else:
+            kw['noise'] = w.noise_folds(nz.replace('nested-', ''), ds.n_channel, len(folds), folds)
+        return pos, kw
+    # no `dataset` parameter (calc_one_similarity): the recipe's arguments, noise replaced
+    n_ch = next((a.n_channel for a in args if hasattr(a, 'n_channel')), 5)
+    kw = dict(kwargs)
+    if 'method' in names:
+        kw['method'] = 'crossnobis'
+    form = 'list-asym' if nz == 'nested-list-asym' else nz
+    kw['noise'] = w.noise_folds(form, n_ch, 2, ['run0', 'run1'])
+    return args, kw
 
 
 def invoke(kind, fn, owner, qualname, self_obj, args, kwargs):
